@@ -14,9 +14,10 @@ def gen_design(rng):
     D['rows'] = []
     for i in range(rng.randrange(0, 4)):
         horiz = rng.random() < 0.7
+        single = rng.random() < 0.25                     # a row with a single site still has a step
         D['rows'].append({'name': f'ROW_{i}', 'site': 'unit', 'x': rng.randrange(0, 50), 'y': 10 * i, 'orient': rng.choice(['N', 'FS']),
-                          'nx': rng.randrange(2, 60) if horiz else 1, 'ny': 1 if horiz else rng.randrange(2, 60), 'sx': rng.randrange(1, 9) if horiz else 0,
-                          'sy': 0 if horiz else rng.randrange(1, 9)})
+                          'nx': (1 if single else rng.randrange(2, 60)) if horiz else 1, 'ny': 1 if horiz else (1 if single else rng.randrange(2, 60)),
+                          'sx': rng.randrange(1, 400) if horiz else 0, 'sy': 0 if horiz else rng.randrange(1, 400)})
     D['tracks'] = [{'dir': rng.choice('XY'), 'start': rng.randrange(0, 20), 'num': rng.randrange(1, 40), 'step': rng.randrange(1, 9), 'layer': f'M{rng.randrange(1, 4)}'}
                    for _ in range(rng.randrange(0, 4))]
     D['vias'] = [{'name': f'via{i}', 'viarule': f'rule{i}', 'cutsize': [rng.randrange(1, 9), rng.randrange(1, 9)], 'layers': ['M1', 'V1', 'M2'],
@@ -31,7 +32,8 @@ def gen_design(rng):
     def route(special):
         segs = []
         for _ in range(rng.randrange(1, 4)):
-            x, y = rng.randrange(0, 500), rng.randrange(0, 500)
+            coord = lambda: rng.choice([0, 0, rng.randrange(0, 500), rng.randrange(1, 500)])     # explicit zeros are frequent in real DEF files
+            x, y = coord(), coord()
             pts = [('pt', x, y)]
             cx, cy = x, y
             for _ in range(rng.randrange(1, 5)):
@@ -42,7 +44,7 @@ def gen_design(rng):
                     else:
                         pts.append(('via', rng.choice(vianames), None if special else rng.choice([None, 'N', 'FS', 'W'])))
                 else:
-                    nx, ny = rng.randrange(0, 500), rng.randrange(0, 500)
+                    nx, ny = coord(), coord()
                     star = rng.choice(['x', 'y', None, None])
                     if star == 'x':
                         pts.append(('pt', None, ny))
